@@ -20,6 +20,11 @@
 
 mod dns;
 mod query;
+#[cfg(libp2p_verif)]
+pub use self::{
+    dns::verif_build_query_response,
+    query::{VerifPacket, verif_parse},
+};
 
 use std::{
     collections::VecDeque,
